@@ -4,7 +4,7 @@ from tools.vlib import *
 from checks import brainlib
 from checks.c03 import classify
 
-THEOREMS = []
+THEOREMS = ["C09_shape", "C09_fixed", "C09_nonpositive", "C09_default", "C09_fraction", "C09_clamp", "C09_sum"]
 EVALS = ["bids_where (fun c => negb (b_tie f_same c)) cases", "bids_where (fun c => negb (b_tie f_tol12 c)) cases",
          "map (fun c => N.of_nat (c09_code c)) cases", "bids_where b_nontrivial cases"]
 
